@@ -157,17 +157,20 @@ theorem C09_py_alpha_beta (nele ms norb : Int) :
       = alphaBeta nele ms norb :=
   GenPy.py_alpha_beta nele ms norb
 
-/-- generated `get_number_conserving_wavefunction` builds exactly `fixedNSectors` with `broken=['spin']` -/
+/-- generated `get_number_conserving_wavefunction` builds exactly `fixedNSectors` with `broken=['spin']`, and refuses
+    a request for which no sector exists (`C09_fixedN` says when that is) -/
 theorem C09_py_fixedN (nele norb : Int) :
     GenPy.get_number_conserving_wavefunction nele norb =
-      ((fixedNSectors nele norb).map (fun x => (x.1, x.2, norb)), ["spin"]) :=
+      if (fixedNSectors nele norb).isEmpty then none
+      else some ((fixedNSectors nele norb).map (fun x => (x.1, x.2, norb)), ["spin"]) :=
   GenPy.py_fixedN nele norb
 
-/-- generated `get_spin_conserving_wavefunction` never reads an unbound local and builds exactly `fixedSzSectors`
-    with `broken=['number']` -/
+/-- generated `get_spin_conserving_wavefunction` never reads an unbound local, builds exactly `fixedSzSectors`
+    with `broken=['number']`, and refuses a request for which no sector exists -/
 theorem C09_py_fixedSz (sz norb : Int) :
     GenPy.get_spin_conserving_wavefunction sz norb =
-      some ((fixedSzSectors sz norb).map (fun x => (x.1, x.2, norb)), ["number"]) :=
+      if (fixedSzSectors sz norb).isEmpty then none
+      else some ((fixedSzSectors sz norb).map (fun x => (x.1, x.2, norb)), ["number"]) :=
   GenPy.py_fixedSz sz norb
 
 /-- generated `map_broken_symmetry`: exactly the beta particle–hole pairs between the fixed-Sz sectors and the
@@ -178,7 +181,9 @@ theorem C09_py_map_broken_symmetry (sz norb : Int) (e : (Int × Int) × (Int × 
         norb + sz - min norb (norb + sz) ≤ e.2.2 ∧ e.2.2 ≤ min norb (norb + sz)) :=
   GenPy.py_map_broken_symmetry sz norb e
 
-example : GenPy.get_number_conserving_wavefunction 2 2 = ([(2, 2, 2), (2, 0, 2), (2, -2, 2)], ["spin"]) := by decide
+example : GenPy.get_number_conserving_wavefunction 2 2 = some ([(2, 2, 2), (2, 0, 2), (2, -2, 2)], ["spin"]) := by decide
+example : GenPy.get_number_conserving_wavefunction 7 3 = none := by decide
+example : GenPy.get_spin_conserving_wavefunction 4 3 = none := by decide
 example : GenPy.alpha_beta_electrons 3 1 = some (2, 1) := by decide
 example : GenPy.alpha_beta_electrons 3 2 = none := by decide
 
